@@ -782,11 +782,15 @@ def inertTok (chunk : Str) : Bool :=
 
 /-! ## input classes -/
 
+/-- the first character is an octal digit `0`–`7` -/
+def headOct : Str → Bool
+  | [] => false
+  | d :: _ => isOct d
+
 /-- a NUL immediately followed by an octal digit `0`–`7` (F-C12-1) -/
 def nulOct : Str → Bool
   | [] => false
-  | c :: rest =>
-    (c == 0 && (match rest with | d :: _ => isOct d | [] => false)) || nulOct rest
+  | c :: rest => (c == 0 && headOct rest) || nulOct rest
 
 def hasLt (s : Str) : Bool := s.contains 60
 
